@@ -41,9 +41,9 @@ PID = "C04"
 LEVEL = "exploration"
 RULE = ("(i) exhaustive: itertools.product over the 13-symbol alphabet {Activate, Revoke x 4 reason "
         "codes, Destroy, Encrypt, Decrypt, Sign, SignatureVerify, MAC, DeriveKey, Get-with-wrapping}, "
-        "all sequences of length 1..3 (quick: 37 cells) / 1..4 (thorough: the 47 cells whose use is "
-        "not ruled out by the object kind alone), 1..3 (thorough: the other 50 cells), 1..5 "
-        "(thorough: SymmetricKey/all), applied to one fresh object per cell = stored object type x "
+        "all sequences of length 1..3 (quick: 37 cells) / 1..4 (thorough: the 46 cells whose use is "
+        "not ruled out by the object kind alone), 1..5 (thorough: SymmetricKey/all), 1..3 (thorough: "
+        "the other 50 cells), applied to one fresh object per cell = stored object type x "
         "usage mask in {none, all, only-b, all-but-b for the seven use bits b}; (ii) random: "
         "Hypothesis histories (6-40 steps, several objects from Register/Create/CreateKeyPair, "
         "random masks, all 7 revocation reason codes, DeriveKey with 1-2 base objects, engine "
@@ -426,7 +426,6 @@ X = 2      # index of the object under test in a trie world (0 = target T, 1 = w
 
 
 def setup_cell(w, otype, mask):
-    b = []
     t, b0 = w.register("SymmetricKey", ALL, "target")
     w.target = t
     wi, b1 = w.register("SymmetricKey", ALL, "witness")
